@@ -155,3 +155,47 @@ Example C12_nonvacuous_addresses :
   /\ addresses_ok banks [mk_lspan (Some 12) 12 259%Z 0 None] = false
   /\ addresses_ok banks [mk_lspan (Some 12) 12 1%Z 0 None] = false.
 Proof. exact example_addresses. Qed.
+
+(* ===== the address and "one item per row" clauses over the WHOLE pipeline (Model/Resolver2.assemble2: constants
+   pre-pass, #bankdef / #bank with per-bank cursors, iterative resolver, confirming pass, check_bank_overlap,
+   build_output).  The spans are the items build_output records (Model/Output.v: offset, size, address, and the
+   bank and encoding the Rust struct does not keep); source locations are not modelled by Resolver2. ===== *)
+From CA Require Import Model.Resolver2 Proofs.SpanOriginP Proofs.ListingPipeP.
+From CA Require Model.Overlap Model.Cursor Model.Output Spec.OverlapSpec Spec.LayoutInv.
+Open Scope N_scope.
+
+(* (1) for every successful assembly, every recorded span lies at a position pos of a usable bank b, with offset
+   outp + pos and address addr_start + pos / unit — for a label this is the label's own value (C02b_label_is_address)
+   at the place build_output visits it — and so the span list passes the address specification the check evaluates
+   on the implementation's spans: the address every listing prints is the one the bank layout assigns *)
+Theorem C12_pipeline_addresses : forall indexed defs ps budget r, assemble2 indexed defs ps budget = Overlap.Ok r ->
+  Forall (located (r_banks r)) (r_items r)
+  /\ addresses_ok (bankws (r_banks r)) (map lspan_of_item (r_items r)) = true.
+Proof. exact pipeline_addresses. Qed.
+
+(* (2) a span has the size of its item's encoding and the output bits under it are exactly that encoding; spans
+   with bits are pairwise disjoint; a span without encoding (a label) has no bits *)
+Theorem C12_pipeline_one_item : forall indexed defs ps budget r, assemble2 indexed defs ps budget = Overlap.Ok r ->
+  (forall it o enc, In it (r_items r) -> Output.it_off it = Some o -> Output.it_enc it = Some enc ->
+     Output.it_size it = N.of_nat (length enc) /\ bits_at (r_bits r) o (Output.it_size it) = enc)
+  /\ OverlapSpec.pairwise_disjointb (LayoutInv.ranges (r_items r)) = true
+  /\ (forall it, In it (r_items r) -> Output.it_enc it = None -> Output.it_size it = 0).
+Proof. exact pipeline_one_item. Qed.
+
+(* (3) hence the digits a listing row shows for a span (C12_digits) are the digits of that one item's encoding,
+   zero-padded to whole digits *)
+Theorem C12_pipeline_row_digits : forall indexed defs ps budget r base g, assemble2 indexed defs ps budget = Overlap.Ok r ->
+  listing_params_ok base g = true ->
+  forall it o enc, In it (r_items r) -> Output.it_off it = Some o -> Output.it_enc it = Some enc ->
+    let k := bits_per_digit base in
+    bits_of_vals (N.to_nat k) (span_digits overshoot_fixed (r_bits r) o (Output.it_size it) k) = pad (N.to_nat k) enc.
+Proof. exact pipeline_row_digits. Qed.
+
+(* a bank with 12-bit units at 0x100 and output offset 8: data, a label, data *)
+Example C12_nonvacuous_pipeline :
+  exists r, assemble2 true [] ex_pipe 3 = Overlap.Ok r
+    /\ map (fun it => (Output.it_off it, Output.it_size it, Output.it_addr it)) (r_items r)
+       = [(Some 8, 12, 256%Z); (Some 20, 12, 257%Z); (Some 32, 0, 258%Z); (Some 32, 12, 258%Z)]
+    /\ addresses_ok (bankws (r_banks r)) (map lspan_of_item (r_items r)) = true
+    /\ addresses_ok (bankws (r_banks r)) [mk_lspan (Some 20) 12 259%Z 0 None] = false.
+Proof. exact pipeline_nonvacuous. Qed.
